@@ -151,7 +151,11 @@ def build_all(clean=False):
     ok_h, out = build_harness()
     log += out
     log += regen_sources()
-    ok_c, out = build_coq(clean)
+    if os.environ.get("VERIF_SKIP_COQ"):
+        # development aid only (a proof agent is compiling in coq/): never set by the registered commands
+        ok_c, out = True, "coq build skipped (VERIF_SKIP_COQ)"
+    else:
+        ok_c, out = build_coq(clean)
     log += out
     # the model is extracted from the model files alone: a proof file that no longer checks must not
     # keep the correspondence suites from running (they are what finds the failing input)
